@@ -40,6 +40,8 @@ pub mod store;
 pub mod tm;
 pub mod wm;
 pub mod split;
+pub mod rank;
+pub mod reg;
 
 pub fn registry() -> Vec<(&'static str, fn())> {
     let mut v = Vec::new();
@@ -54,5 +56,7 @@ pub fn registry() -> Vec<(&'static str, fn())> {
     v.extend_from_slice(tm::ALL);
     v.extend_from_slice(wm::ALL);
     v.extend_from_slice(split::ALL);
+    v.extend_from_slice(rank::ALL);
+    v.extend_from_slice(reg::ALL);
     v
 }
